@@ -489,6 +489,28 @@ impl<T: Shape + 'static> ShapeRun for Runner<T> {
     fn name(&self) -> String { T::name() }
 
     fn run(&self, bytes: &[u8], stats: &mut MemStats) -> Vec<MemFailure> {
+        // size estimation is total: a panic anywhere in here is a C08 failure
+        let r = std::panic::catch_unwind(std::panic::AssertUnwindSafe(|| {
+            let mut local = MemStats::default();
+            let fails = self.run_inner(bytes, &mut local);
+            (fails, local)
+        }));
+        match r {
+            Ok((fails, local)) => {
+                stats.checks += local.checks;
+                stats.discarded += local.discarded;
+                stats.nontrivial8.extend(local.nontrivial8);
+                stats.nontrivial9.extend(local.nontrivial9);
+                fails
+            },
+            Err(p) => vec![MemFailure { tags: vec!["C08", "C09"], sig: format!("panic:{}", T::name()),
+                msg: format!("{}: size estimation panicked: {}", T::name(), crate::tracked::panic_message(&*p)) }],
+        }
+    }
+}
+
+impl<T: Shape + 'static> Runner<T> {
+    fn run_inner(&self, bytes: &[u8], stats: &mut MemStats) -> Vec<MemFailure> {
         let mut fails = Vec::new();
         let name = T::name();
         let mut u = Unstructured::new(bytes);
@@ -648,6 +670,66 @@ impl ShapeRun for UnsizedRunner {
     }
 }
 
+/// Mutex / RwLock estimates while another thread holds the lock: the
+/// estimate may wait, but it must come back with the full size.
+pub struct LockedElsewhereRunner;
+
+impl ShapeRun for LockedElsewhereRunner {
+    fn name(&self) -> String { "locks-held-elsewhere".into() }
+
+    fn run(&self, bytes: &[u8], stats: &mut MemStats) -> Vec<MemFailure> {
+        use std::sync::mpsc::channel;
+        let mut fails = Vec::new();
+        let mut u = Unstructured::new(bytes);
+        let inner = String::build(&mut u, 0);
+        let want = inner.capacity();
+        let which = int(&mut u, 0, 2);
+        let hold_ms = 3 + int(&mut u, 0, 5) as u64;
+        stats.checks += 1;
+        let (name, got) = match which {
+            0 => {
+                let m = Mutex::new(inner);
+                let (tx, rx) = channel::<()>();
+                let got = std::thread::scope(|s| {
+                    s.spawn(|| { let g = m.lock().unwrap(); tx.send(()).unwrap(); std::thread::sleep(std::time::Duration::from_millis(hold_ms)); drop(g); });
+                    rx.recv().unwrap();
+                    m.heap_size()
+                });
+                ("Mutex<String> locked by another thread", got)
+            },
+            1 => {
+                let m = RwLock::new(inner);
+                let (tx, rx) = channel::<()>();
+                let got = std::thread::scope(|s| {
+                    s.spawn(|| { let g = m.write().unwrap(); tx.send(()).unwrap(); std::thread::sleep(std::time::Duration::from_millis(hold_ms)); drop(g); });
+                    rx.recv().unwrap();
+                    m.heap_size()
+                });
+                ("RwLock<String> write-locked by another thread", got)
+            },
+            _ => {
+                let m = vec![Mutex::new(inner), Mutex::new(String::from("xy"))];
+                let (tx, rx) = channel::<()>();
+                let got = std::thread::scope(|s| {
+                    s.spawn(|| { let g = m[0].lock().unwrap(); tx.send(()).unwrap(); std::thread::sleep(std::time::Duration::from_millis(hold_ms)); drop(g); });
+                    rx.recv().unwrap();
+                    m.heap_size() - m.capacity() * std::mem::size_of::<Mutex<String>>() - m[1].lock().unwrap().capacity()
+                });
+                ("Vec<Mutex<String>> with one element locked by another thread", got)
+            },
+        };
+        if got != want {
+            fails.push(MemFailure { tags: vec!["C08", "C09"], sig: format!("lock-held:{}", which),
+                msg: format!("{}: heap_size {} but the protected value holds {}", name, got, want) });
+        }
+        if want > 0 {
+            stats.nontrivial8.push(format!("locked-elsewhere|{}", which));
+            stats.nontrivial9.push(format!("locked-elsewhere|{}", which));
+        }
+        fails
+    }
+}
+
 macro_rules! menu {
     ($($t:ty),* $(,)?) => {
         vec![$(Box::new(Runner::<$t>(PhantomData)) as Box<dyn ShapeRun + Send>),*]
@@ -708,10 +790,13 @@ pub fn menu_send() -> Vec<Box<dyn ShapeRun + Send>> {
         Vec<RangeTo<Vec<u8>>>, Vec<RangeToInclusive<String>>, HashMap<u8, Range<String>>, [Range<String>; 3],
         Vec<Wrapping<u64>>, Vec<RwLock<Vec<u8>>>, BinaryHeap<Box<str>>, HashSet<Box<str>>, Vec<Option<Range<String>>>,
         Vec<(Range<String>, u8)>, Box<[Option<String>]>, Vec<Result<Box<str>, String>>, Vec<HashSet<u16>>,
+        Vec<Vec<()>>, Vec<Vec<[u8; 0]>>, Box<[Vec<()>]>, (Vec<()>, Vec<()>), HashMap<u8, Vec<()>>, Vec<Box<[()]>>, [Vec<()>; 3],
+        Vec<(Vec<()>, String)>, BinaryHeap<Vec<()>>, Vec<Vec<Vec<()>>>,
         // references
         &'static String, Vec<&'static String>, (&'static Vec<u8>, String),
     ];
     m.push(Box::new(UnsizedRunner));
+    m.push(Box::new(LockedElsewhereRunner));
     m
 }
 
